@@ -123,6 +123,9 @@ func GenCfg(src *choice.Src, o Opts) *Cfg {
 	}
 	for i := 0; i < nd; i++ {
 		d := Dec{Tag: choice.Pick(src, "dtag", tagNames), Fn: g.fx(choice.Pick(src, "dfn", []string{"Decorate", "DecorateE"}))}
+		if !o.Plain && src.Chance("dstar", 1, 8) {
+			d.Tag = "*" // legal in the grammar, carried by no service: such a decorator is never applied
+		}
 		na := src.Range("dnargs", 0, 2)
 		for j := 0; j < na; j++ {
 			d.Args = append(d.Args, g.depArg(len(c.Services), true))
@@ -160,7 +163,10 @@ func (g *genState) namespaceCollision() {
 	if c.Svc(sh.Name) != nil {
 		return
 	}
-	switch src.Draw("nscollide.kind", 3) {
+	switch src.Draw("nscollide.kind", 4) {
+	case 3:
+		// the parameter first, then the service of the same name: this one IS a dependency on a contextual service
+		sh.Args = append(sh.Args, Arg{Kind: "pattern", Chunks: []Chunk{{Kind: "ref", S: ctxName}}}, Arg{Kind: "svc", S: ctxName})
 	case 0:
 		sh.Args = append(sh.Args, Arg{Kind: "pattern", Chunks: []Chunk{{Kind: "ref", S: ctxName}}})
 	case 1:
